@@ -100,7 +100,7 @@ def check_shift(P: dict, base_row, shift) -> list:
                     continue
                 if not np.isfinite(p[l]) or not np.isfinite(p0):
                     continue  # reported by check_distribution
-                if abs(p[l] - p0) > SHIFT_RTOL * abs(p0) + 1e-300:
+                if abs(p[l] - p0) > SHIFT_RTOL * abs(p0) + 1e-280:  # below 1e-280 float64 loses relative precision
                     out.append(('probability-changes-when-constant-added-to-all-utilities',
                                 f'alternative {a}, base row {rr}: P(V) = {p0!r}, P(V + {shift[l]}) = {p[l]!r}', int(l)))
                     return out  # one witness per model is enough
